@@ -2,8 +2,13 @@ package verifsim
 
 import (
 	"fmt"
+	"net/url"
 	"os"
 	"strings"
+
+	"connectrpc.com/vanguard"
+	"google.golang.org/protobuf/proto"
+	"google.golang.org/protobuf/reflect/protoregistry"
 )
 
 // C15: the outcome of an RPC is independent of earlier traffic on the same Transcoder.
@@ -191,6 +196,9 @@ func init() {
 			if tier == "thorough" {
 				maxHist = 20
 			}
+			if c.Prob(0.06) {
+				return genGetMemoPlan(c)
+			}
 			nh := Pick(c, 0, 1, 2, 3, c.Intn(maxHist+1))
 			cfg := ConfigPlan{Services: []ServicePlan{svc}}
 			// a third of the worlds also serve the REST-bound parameter service, and a few of its methods take part in the
@@ -269,4 +277,47 @@ func init() {
 		Components:  stdComponents,
 		Assumptions: []string{"state that could leak lives in the buffer pool (simulated free list behind the hook) and in pooled compressors/decompressors (real gzip/zlib objects behind misuse-detecting wrappers, recycled by the real sync.Pool)"},
 	})
+}
+
+// genGetMemoPlan: whether a message still fits a GET URL is a function of that message alone. History: side-effect-free
+// calls whose message does not fit the service's URL limit once it is escaped (characters that triple in a query string),
+// so that they are re-issued as POST; probe: a call whose message is at least as large when encoded, but fits.
+func genGetMemoPlan(c *Chooser) *Plan {
+	strMsg := func(s string) []byte {
+		b := appendVarint([]byte{0x72}, uint64(len(s))) // AllTypes.string_value
+		return append(b, s...)
+	}
+	// the length of the GET URL a message needs, estimated with the service's own JSON codec (it emits every field)
+	urlLen := func(data []byte) int {
+		m := newMessageFor(getSchema("sim").method("UnaryNSE").Input())
+		if proto.Unmarshal(data, m) != nil {
+			return -1
+		}
+		b, err := vanguard.NewJSONCodec(protoregistry.GlobalTypes).MarshalAppend(nil, m)
+		if err != nil {
+			return -1
+		}
+		return len("/sim.v1.SimService/UnaryNSE?connect=v1&encoding=json&message=") + len(url.QueryEscape(string(b)))
+	}
+	n1 := c.Range(150, 250)
+	n2 := c.Range(n1, n1+80)
+	hist := strMsg(strings.Repeat(Pick(c, "=", "&", "%", "+"), n1))
+	probe := strMsg(strings.Repeat("a", n2))
+	lo, hi := urlLen(probe), urlLen(hist)
+	if lo < 0 || hi-lo < 200 {
+		return nil
+	}
+	L := (lo + hi) / 2 // the probe fits with room to spare, the history does not by as much
+	svc := ServicePlan{Schema: "sim", MaxMsg: 1 << 20, Protocols: []string{ProtoConnect}, Codecs: []string{"json"}, NoCompression: true, MaxGetURL: uint32(L)}
+	get := func(data []byte) RPCPlan {
+		return RPCPlan{Client: ClientPlan{Form: FormConnectGet, HTTP: Pick(c, 1, 2), Service: "sim", Method: "UnaryNSE", Codec: "proto", Msgs: []MsgSpec{{Data: data}}},
+			Backend: BackendPlan{Resp: RespPlan{Msgs: []MsgSpec{smallMsg()}, TrailerStyle: "prefix"}}}
+	}
+	var rpcs []RPCPlan
+	for i, k := 0, c.Range(1, 3); i < k; i++ {
+		rpcs = append(rpcs, get(hist))
+	}
+	rpcs = append(rpcs, get(probe))
+	return &Plan{Config: ConfigPlan{Services: []ServicePlan{svc}}, RPCs: rpcs, Sched: SchedPlan{Policy: "seq"}, Note: "get-url",
+		Pool: PoolPlan{Policy: "lifo"}, StepCap: 400000}
 }
